@@ -13,6 +13,11 @@ spec/batch/Batch.tla models the function at three granularities that share every
    the property-compliant specification (EmptyFix = TRUE) is what the code is compared with.
 3. spec -> code: TLC enumerates every behaviour of the gated specification (grain call, then grain hook) and
    harness/c10 TestReplay drives the real function through each of them, comparing after every step.
+   Each behaviour also runs through the deprecated DoBatch wrapper (status codes from the specification's table of the
+   isHTTPStatus4xx classification), on a real ring.Ring and on ring.ActivePartitionBatchRing over a real PartitionRing
+   where these can produce the case.  Thorough: the caller's context ending at any hook point (MC_gen_hook_c), seeded
+   -simulate samples of 2..4 keys x 6 replicas (BatchSim.tla), and tolerances outside the contract (minSuccess 0:
+   MC_degenerate must be refuted by TLC, MC_gen_degenerate: the code must wait for the context exactly as that model does).
 4. code -> spec: TestRace releases groups of callbacks simultaneously (real goroutines race inside record),
    logs only Release/Cancel/observations; BatchTrace.tla lets TLC infer the interleaving of the atomic steps.
 """
@@ -28,17 +33,28 @@ META = {
                   "DoBatchWithOptions in which every access of batchTracker.record to a shared counter or channel is its own action, over "
                   "every key->replica assignment (up to replica renaming), every tolerance, every outcome vector in {ok, client error, "
                   "server error}, every cancellation point and every interleaving, within the tier's bounds (quick: 1 key x 3 replicas and "
-                  "2 keys x 2 replicas; thorough: up to 3 keys x 3..4 replicas, RF <= 3). The real function is bound to it in both "
-                  "directions: every behaviour of the driver-visible specification (one step per returning call; one step per stretch "
-                  "between the VerifYield hooks inside record) is replayed through the real code in a synctest bubble with a comparison "
-                  "after every step (return value by error identity, cleanup count, callback arguments, goroutine positions), and runs "
-                  "with simultaneously released callbacks are validated by TLC against the atomic-grain specification.",
+                  "2 keys x 2 replicas at atomic grain; thorough: up to 3 keys x 3 replicas / 2 keys x 4 replicas at atomic grain, and at "
+                  "the coarse grain 3 keys x 4 replicas, 4 keys x 3, 1 key x 5 replicas RF 5, 2 keys x 6 replicas). A model of the "
+                  "pre-fix code (no completion signal for an empty key list) is kept as a negative control that TLC must refute. The real "
+                  "function is bound in both directions: every behaviour of the driver-visible specification (one step per returning "
+                  "call; one step per stretch between the VerifYield hooks inside record; thorough: also with the caller's context ending "
+                  "at any hook point, and seeded -simulate samples of 2..4 keys x 6 replicas x up to 5 replicas per key) is replayed "
+                  "through the real code in a synctest bubble with a comparison after every step (return value by error identity, cleanup "
+                  "count, callback arguments, goroutine positions) - with a stub DoBatchRing, with a real ring.Ring and with "
+                  "ring.ActivePartitionBatchRing over a real PartitionRing (keys routed past an inactive partition) where these can "
+                  "produce the case, through DoBatchWithOptions and through the deprecated DoBatch wrapper with concrete status codes "
+                  "taken from the specification's table of the isHTTPStatus4xx classification; runs with simultaneously released "
+                  "callbacks are validated by TLC against the atomic-grain specification.",
     "level_note": "Trusted: TLC; testing/synctest quiescence (synctest.Wait) as 'nothing of the code can move'; the stub DoBatchRing "
                   "(returns exactly the case's replication sets and MaxErrors); error identity by pointer equality; the two yield hooks "
-                  "sit where the specification's yield points are. Bounds are small (<= 3 keys, <= 4 replica calls); larger batches are "
-                  "not enumerated. minSuccess >= 1 and non-empty replication sets are assumed (what ring.Get guarantees).",
-    "technique": "TLA+ specification (Batch.tla, three granularities) model-checked by TLC; TLC-generated behaviours replayed into the real "
-                 "code (gen/replay, incl. scheduler-gated fine interleavings); recorded racing runs validated by TLC (BatchTrace.tla)",
+                  "sit where the specification's yield points are. Exhaustive bounds are small (<= 3 keys x 4 replica calls; 4 keys x 3; "
+                  "5 calls for one key); 4 keys x 6 replicas x RF 5 is sampled, not enumerated. minSuccess >= 1 and non-empty "
+                  "replication sets are assumed: ring.Ring's replication strategies and ActivePartitionBatchRing cannot produce anything "
+                  "else (a hand-written DoBatchRing that does would make the call wait for the context). The context re-check every "
+                  "10^4 keys is modelled for the first key only (batches < 10^4 keys).",
+    "technique": "TLA+ specification (Batch.tla, three granularities; BatchSim.tla random cases) model-checked / simulated by TLC; "
+                 "TLC-generated behaviours replayed into the real code (gen/replay, incl. scheduler-gated fine interleavings); recorded "
+                 "racing runs validated by TLC (BatchTrace.tla)",
     "design_ref": "DESIGN.md 2 C10",
 }
 
@@ -88,8 +104,8 @@ def as_code_must_hang(ctx, cfg, expect):
     if r.timed_out or r.error:
         incon("%s: TLC failed: %s" % (cfg, r.error or "timeout"))
     if r.violated != expect:
-        incon("%s: the model of the pinned code was expected to violate %s (empty key list never returns), TLC says %r"
-              % (cfg, expect, r.violated))
+        incon("%s: negative control - this model (pre-fix code / out-of-contract replication set) was expected to violate %s, "
+              "TLC says %r" % (cfg, expect, r.violated))
     return "".join(r.trace)[-1200:]
 
 
@@ -114,10 +130,12 @@ class SpecStream(threading.Thread):
             for cfg in fine:
                 model_check(ctx, cfg, 1500 if quick else 7200, coverage=(not quick and cfg == "MC_fine_t1"))
             model_check(ctx, "MC_live_q" if quick else "MC_live_t", 1500 if quick else 7200)
-            for cfg in (["MC_coarse_q"] if quick else ["MC_coarse_t", "MC_coarse_t2", "MC_coarse_t3", "MC_coarse_t4"]):
+            for cfg in (["MC_coarse_q"] if quick else ["MC_coarse_t", "MC_coarse_t5", "MC_coarse_t2", "MC_coarse_t3", "MC_coarse_t4"]):
                 model_check(ctx, cfg, 1500 if quick else 7200)
             if not quick:
                 as_code_must_hang(ctx, "MC_ascode_nohang", "NoHang")
+                # second negative control: a replication set with minSuccess = 0 (no ring of dskit produces one) must be refuted too
+                as_code_must_hang(ctx, "MC_degenerate", "NoHang")
         except BaseException as ex:   # re-raised in the main thread
             self.exc = ex
 
@@ -130,8 +148,18 @@ def generate(ctx, cfg, timeout):
     return sorted_copy(ctx, r.out_path, cfg + ".sorted.ndjson")
 
 
-def replay(ctx, paths, n, timeout, variants=1, corrupt=0, real_every=4):
-    env = {"VERIF_IN": ",".join(paths), "VERIF_VARIANTS": variants, "VERIF_REAL_EVERY": real_every}
+def simulate(ctx, cfg, num, timeout):
+    """Random behaviours of the gated specification on a universe too large to enumerate (BatchSim draws the case first)."""
+    r = ctx.tlc("batch", "BatchSim", cfg=cfg + ".cfg", workers=W, timeout=timeout, heap=HEAP, deadlock=False,
+                simulate="num=%d" % max(1, num // W), depth=120)
+    ctx.require_tlc_ok(r, cfg)
+    if r.emitted == 0:
+        incon("%s emitted no behaviours" % cfg)
+    return sorted_copy(ctx, r.out_path, cfg + ".sorted.ndjson")
+
+
+def replay(ctx, paths, n, timeout, variants=1, corrupt=0, real_every=4, wrap_every=5):
+    env = {"VERIF_IN": ",".join(paths), "VERIF_VARIANTS": variants, "VERIF_REAL_EVERY": real_every, "VERIF_WRAP_EVERY": wrap_every}
     if corrupt:
         env["VERIF_CORRUPT"] = corrupt
     res = ctx.run_harness("c10", "^TestReplay$", env=env, timeout=timeout)
@@ -200,7 +228,7 @@ def run(ctx):
         call_path, n_call = generate(ctx, "MC_gen_call_q", 1500)
         hook_path, n_hook = generate(ctx, "MC_gen_hook_q", 1500)
         res = replay(ctx, [call_path, hook_path], n_call + n_hook, 1200, variants=1 if quick else 3, corrupt=corrupt,
-                     real_every=4 if quick else 1)
+                     real_every=4 if quick else 1, wrap_every=5 if quick else 1)
         f1 = [m for m in res.get("mismatches") or [] if m.get("sig") == "empty-keys:never-returns"]
         if f1:
             specs.join()            # the explanation comes from the model of the pinned code
@@ -214,9 +242,20 @@ def run(ctx):
             p1, n1 = generate(ctx, "MC_gen_call_t", 7200)
             p2, n2 = generate(ctx, "MC_gen_hook_t", 7200)
             p3, n3 = generate(ctx, "MC_gen_call_t2", 7200)
-            res = replay(ctx, [p1, p2, p3], n1 + n2 + n3, 3000, real_every=1)
+            p4, n4 = generate(ctx, "MC_gen_hook_c", 7200)      # grain hook with the caller's context ending at any hook point
+            res = replay(ctx, [p1, p2, p3, p4], n1 + n2 + n3 + n4, 3000, real_every=1, wrap_every=3)
             ctx.absorb(res, "replay (thorough universe)")
-            n_call, n_hook = n_call + n1 + n3, n_hook + n2
+            n_call, n_hook = n_call + n1 + n3, n_hook + n2 + n4
+            # sampled behaviours of 2..4 keys x 6 replicas x up to 5 replicas per key (seeded)
+            p5, n5 = simulate(ctx, "MC_sim_nocancel", 6000, 3000)
+            p6, n6 = simulate(ctx, "MC_sim_cancel", 3000, 3000)
+            # outside the contract (tolerance = number of replicas, i.e. minSuccess 0): the model says the call then waits for
+            # the context; the code must do exactly what the model says there as well
+            p7, n7 = generate(ctx, "MC_gen_degenerate", 3000)
+            res = replay(ctx, [p5, p6, p7], n5 + n6 + n7, 3000, real_every=1, wrap_every=3)
+            ctx.absorb(res, "replay (sampled, 2..4 keys x 6 replicas; degenerate tolerances)")
+            ctx.extra["behaviours_sampled_large_universe"] = n5 + n6
+            ctx.extra["behaviours_degenerate_tolerance"] = n7
         ctx.extra["behaviours_grain_call"] = n_call
         ctx.extra["behaviours_grain_hook"] = n_hook
 
